@@ -144,6 +144,12 @@ var (
 	fMaxViol = flag.Int("maxviol", 6, "distinct violations to keep per worker")
 )
 
+// RaceMode reports whether the worker runs free-running / parallel runs under
+// the race detector (-racemode). In that mode the testing package itself
+// marks the test as failed when the detector fires; the engines read the
+// detector's report instead, so that exit status is ignored.
+func RaceMode() bool { return *fRace }
+
 // Progress is bumped by engines so that a real-time watchdog can tell a
 // stuck run from a slow one.
 var Progress func()
